@@ -290,23 +290,33 @@ def check_property(prop, tier, seed):
 
 def locate_source(info):
     """best effort /repo file:line of the function an obligation belongs to"""
-    crate, fn = info.get("crate"), info.get("src_fn")
+    crate, fn, ctx = info.get("crate"), info.get("src_fn"), info.get("ctx") or ""
     if not crate or not fn:
         return f"{info.get('file')}:{info.get('line', info.get('cline', '?'))}"
     root = os.path.join(REPO, crate, "src")
-    pat = re.compile(r"\bfn\s+" + re.escape(fn.removesuffix("_to") if False else fn) + r"\b")
-    pat2 = re.compile(r"\bfn\s+" + re.escape(fn[:-3]) + r"\b") if fn.endswith("_to") else None
+    names = [fn] + ([fn[:-3]] if fn.endswith("_to") else [])
+    pats = [re.compile(r"\bfn\s+" + re.escape(n) + r"\b") for n in names]
+    m = re.match(r"\s*(?:pub\s+)?mod\s+(\w+)", ctx)
+    want_file = (m.group(1) + ".rs") if m else None
+    key = re.sub(r"<[^>]*>", "", ctx)
+    key_ids = [w for w in re.findall(r"[A-Za-z_]\w*", key) if w not in ("pub", "trait", "impl", "for", "mod", "U", "T")]
+    best = None
     for dp, _, files in os.walk(root):
         for f in sorted(files):
-            if f.endswith(".rs"):
-                p = os.path.join(dp, f)
-                try:
-                    for i, ln in enumerate(open(p), 1):
-                        if pat.search(ln) or (pat2 and pat2.search(ln)):
-                            return f"{os.path.relpath(p, REPO)}:{i} (fn {fn})"
-                except Exception:
-                    pass
-    return f"{crate}::{fn}"
+            if not f.endswith(".rs"):
+                continue
+            p = os.path.join(dp, f)
+            try:
+                txt = open(p).read()
+            except Exception:
+                continue
+            for i, ln in enumerate(txt.splitlines(), 1):
+                if any(pt.search(ln) for pt in pats):
+                    score = (2 if want_file == f else 0) + sum(1 for k in key_ids if k in txt)
+                    if best is None or score > best[0]:
+                        best = (score, f"{os.path.relpath(p, REPO)}:{i} (fn {fn})")
+                    break
+    return best[1] if best else f"{crate}::{fn}"
 
 
 def write_undecided_evidence(prop, tier, seed, reason):
